@@ -285,7 +285,4 @@ def run(ctx):
 
 
 def replay(ctx, path):
-    import json
-    r = json.load(open(path))
-    print(json.dumps(r, indent=1)[:4000])
-    return 0
+    return C.replay_generic(path)
